@@ -47,20 +47,26 @@ def execute(entry, cfg, origin, seed, idxkind):
         for b in cfg["ups"]:
             # parameter updating off: Detrender.update's default would refit its forecaster, which needs a
             # stored horizon (the missing-horizon-on-refit case is outside C13, see DESIGN 7)
-            est.update(ser(hi + 1, hi + b, sp, entry, seed, origin, idxkind), update_params=False)
+            # (the deseasonalizers have nothing to refit: both settings are exercised)
+            est.update(ser(hi + 1, hi + b, sp, entry, seed, origin, idxkind),
+                       update_params=bool(seed % 3 == 1 and cfg["kind"] != "other"))
             hi += b
     z = ser(cfg["lo"], cfg["lo"] + cfg["len"] - 1, sp, entry, seed, origin, idxkind)
     z0 = z.copy()
     out = est.transform(z)
-    res = {"est": est, "z": z0, "out": out}
+    res = {"est": est, "z": z0, "out": out, "train": train}
     if entry["inverse"]:
         res["back"] = est.inverse_transform(out)
     return res
 
 
-def decode_phases(est, zin, zout):
-    s = np.asarray(est.seasonal_, dtype=float)
+def decode_phases(est, zin, zout, train):
+    """Which entry of the seasonal pattern was removed at each time point.  The pattern is not read from the
+    transformer: it is the classical decomposition of the training series (statsmodels), first period."""
+    from statsmodels.tsa.seasonal import seasonal_decompose
     mult = getattr(est, "model", "additive") == "multiplicative"
+    s = np.asarray(seasonal_decompose(np.asarray(train.values, dtype=float), model="multiplicative" if mult else "additive",
+                                      period=int(est.sp)).seasonal[:int(est.sp)], dtype=float)
     d = (np.asarray(zin) / np.asarray(zout)) if mult else (np.asarray(zin) - np.asarray(zout))
     out = []
     for v in d:
@@ -78,8 +84,8 @@ def observe(entry, cfg, seed):
              "phases": [], "inv_phases": [], "rt": [], "rt_index": True}
         deseason = cfg["kind"] in ("deseason_add", "deseason_mul", "cond_deseason")
         if deseason:
-            o["phases"] = decode_phases(r["est"], r["z"].values, r["out"].values)
-            o["inv_phases"] = decode_phases(r["est"], r["back"].values, r["out"].values)
+            o["phases"] = decode_phases(r["est"], r["z"].values, r["out"].values, r["train"])
+            o["inv_phases"] = decode_phases(r["est"], r["back"].values, r["out"].values, r["train"])
         if entry["inverse"]:
             zb, z = r["back"], r["z"]
             A, B, C = (np.asarray(x.values, dtype=float).reshape(len(x), -1) for x in (zb, z, r["out"]))
@@ -148,11 +154,11 @@ def run(ctx):
         rule="TLC enumerates scenarios (training length, period, 0-2 update batches of length 1-5, transformed "
              "stretch starting 0..12 after the training start, index origin) and proves the expected seasonal "
              "phase is periodic and anchored at the training start; every series transformer of the registry "
-             "runs a seeded sample: output index, the seasonal_ entry actually removed / restored at each time "
-             "point (decoded from public fitted attributes), position-wise round trip, fit_transform vs "
+             "runs a seeded sample: output index, the entry of the training series' seasonal pattern actually removed / restored at each time "
+             "point (decoded against an independent classical decomposition), position-wise round trip, fit_transform vs "
              "fit+transform and a shifted-index twin run are validated by TraceSeriesTransf.tla. Non-trivial = "
              "scenario with updates or a stretch not starting on a period boundary.",
-        assumptions=["compat shim", "seasonal_ / model are public fitted attributes used for decoding",
+        assumptions=["compat shim", "the seasonal pattern used for decoding is statsmodels' classical decomposition of the training series (first period), not the transformer's own attribute",
                      "round trip compared with 1e-7 relative tolerance wherever transform is finite"])
 
 
